@@ -127,8 +127,12 @@ class TabularCPD(DiscreteFactor):
         if config.BACKEND == "numpy":
             values = np.array(values, dtype=config.get_dtype())
         else:
+            # clone(): a tensor that needs no conversion would otherwise be kept as is.
             values = (
-                torch.Tensor(values).type(config.get_dtype()).to(config.get_device())
+                torch.Tensor(values)
+                .type(config.get_dtype())
+                .to(config.get_device())
+                .clone()
             )
 
         if values.ndim != 2:
